@@ -784,6 +784,28 @@ fn payload_mutants(acc: &mut Acc) -> usize {
                 }
             }
         }
+        // two spellings of one text, per leaf: escaped character data and a CDATA section, both denoting the characters
+        // x&amp;y&lt; (a text that itself looks like escaped markup). Whatever the leaf's type, the two documents mean the
+        // same: both are refused, or both hand the backend the same input.
+        for (li, (name, (ts, te))) in crate::props::c13::leaf_text_spans(&tree).into_iter().enumerate() {
+            let id = || format!("payload/{}/two-spellings#{li}<{name}>", d.name());
+            if !a.selected(&id) {
+                continue;
+            }
+            a.eval();
+            a.nontrivial(fnv(id().as_bytes()));
+            let with = |t: &str| -> Vec<u8> { format!("{}{t}{}", &doc[..ts], &doc[te..]).into_bytes() };
+            let escaped = with("x&amp;amp;y&amp;lt;");
+            let cdata = with("<![CDATA[x&amp;y&lt;]]>");
+            let (ra, va) = record(&escaped);
+            let (rb, vb) = record(&cdata);
+            if ra == rb {
+                a.outcome(if ra.is_some() { "payload two-spellings: same input" } else { "payload two-spellings: both refused" });
+            } else {
+                a.outcome("payload two-spellings: THE SPELLING DECIDES");
+                a.fail(&format!("C02/payload/escaped-text-and-cdata-section-of-the-same-characters-differ/{}", d.name()), 0, id(), format!("{}: <{name}> written as x&amp;amp;y&amp;lt; gives {va} / {:?}; written as <![CDATA[x&amp;y&lt;]]> (the same characters) gives {vb} / {:?}", d.name(), ra.as_ref().map(|r| r.chars().take(300).collect::<String>()), rb.as_ref().map(|r| r.chars().take(300).collect::<String>())), json!({}));
+            }
+        }
         let _ = alts;
     });
     n
